@@ -31,6 +31,53 @@ pub struct FontData<'a> {
 pub struct Cursor<'a> {
     pos: usize,
     data: FontData<'a>,
+    #[cfg(googlefonts_fontations_verif)]
+    verif_id: u64,
+}
+
+/// Verification hook (H3): a per-thread log of cursor steps
+/// `(cursor id, step kind, a, b, ok)`; see `/verif/spec/read/ReadProtocol.tla`.
+///
+/// kinds: 0 new (a = data length, b = address of the data), 1 advance (a = n,
+/// b = position afterwards), 2 read scalar (a = width, b = position before),
+/// 3 finish (a = position), 4 position (a = position), 5 remaining_bytes
+/// (a = position, b = result), 6 read range (a = byte length, b = position before)
+#[cfg(googlefonts_fontations_verif)]
+pub mod cursor_verif {
+    use std::cell::RefCell;
+
+    pub type Step = (u64, u8, usize, usize, bool);
+
+    thread_local! {
+        static LOG: RefCell<Option<Vec<Step>>> = const { RefCell::new(None) };
+        static NEXT_ID: RefCell<u64> = const { RefCell::new(0) };
+    }
+
+    /// Start (with an empty log) or stop logging on this thread.
+    pub fn set_logging(on: bool) {
+        LOG.with(|l| *l.borrow_mut() = on.then(Vec::new));
+    }
+
+    /// Take the steps logged so far on this thread.
+    pub fn take_log() -> Vec<Step> {
+        LOG.with(|l| l.borrow_mut().as_mut().map(std::mem::take).unwrap_or_default())
+    }
+
+    pub(super) fn next_id() -> u64 {
+        NEXT_ID.with(|n| {
+            let mut n = n.borrow_mut();
+            *n = n.wrapping_add(1);
+            *n
+        })
+    }
+
+    pub(super) fn log(id: u64, kind: u8, a: usize, b: usize, ok: bool) {
+        LOG.with(|l| {
+            if let Some(l) = l.borrow_mut().as_mut() {
+                l.push((id, kind, a, b, ok));
+            }
+        });
+    }
 }
 
 impl<'a> FontData<'a> {
@@ -173,9 +220,17 @@ impl<'a> FontData<'a> {
     }
 
     pub(crate) fn cursor(&self) -> Cursor<'a> {
+        #[cfg(googlefonts_fontations_verif)]
+        let verif_id = {
+            let id = cursor_verif::next_id();
+            cursor_verif::log(id, 0, self.len(), self.bytes.as_ptr() as usize, true);
+            id
+        };
         Cursor {
             pos: 0,
             data: *self,
+            #[cfg(googlefonts_fontations_verif)]
+            verif_id,
         }
     }
 
@@ -188,10 +243,14 @@ impl<'a> FontData<'a> {
 impl<'a> Cursor<'a> {
     pub(crate) fn advance<T: Scalar>(&mut self) {
         self.pos = self.pos.saturating_add(T::RAW_BYTE_LEN);
+        #[cfg(googlefonts_fontations_verif)]
+        cursor_verif::log(self.verif_id, 1, T::RAW_BYTE_LEN, self.pos, true);
     }
 
     pub(crate) fn advance_by(&mut self, n_bytes: usize) {
         self.pos = self.pos.saturating_add(n_bytes);
+        #[cfg(googlefonts_fontations_verif)]
+        cursor_verif::log(self.verif_id, 1, n_bytes, self.pos, true);
     }
 
     /// Read a variable length u32 and advance the cursor
@@ -217,6 +276,8 @@ impl<'a> Cursor<'a> {
     /// Read a scalar and advance the cursor.
     pub(crate) fn read<T: Scalar>(&mut self) -> Result<T, ReadError> {
         let temp = self.data.read_at(self.pos);
+        #[cfg(googlefonts_fontations_verif)]
+        cursor_verif::log(self.verif_id, 2, T::RAW_BYTE_LEN, self.pos, temp.is_ok());
         self.advance::<T>();
         temp
     }
@@ -224,6 +285,8 @@ impl<'a> Cursor<'a> {
     /// Read a big-endian value and advance the cursor.
     pub(crate) fn read_be<T: Scalar>(&mut self) -> Result<BigEndian<T>, ReadError> {
         let temp = self.data.read_be_at(self.pos);
+        #[cfg(googlefonts_fontations_verif)]
+        cursor_verif::log(self.verif_id, 2, T::RAW_BYTE_LEN, self.pos, temp.is_ok());
         self.advance::<T>();
         temp
     }
@@ -235,6 +298,8 @@ impl<'a> Cursor<'a> {
         let len = T::compute_size(args)?;
         let range_end = self.pos.checked_add(len).ok_or(ReadError::OutOfBounds)?;
         let temp = self.data.read_with_args(self.pos..range_end, args);
+        #[cfg(googlefonts_fontations_verif)]
+        cursor_verif::log(self.verif_id, 6, len, self.pos, temp.is_ok());
         self.advance_by(len);
         temp
     }
@@ -253,6 +318,8 @@ impl<'a> Cursor<'a> {
             .ok_or(ReadError::OutOfBounds)?;
         let range_end = self.pos.checked_add(len).ok_or(ReadError::OutOfBounds)?;
         let temp = self.data.read_with_args(self.pos..range_end, args);
+        #[cfg(googlefonts_fontations_verif)]
+        cursor_verif::log(self.verif_id, 6, len, self.pos, temp.is_ok());
         self.advance_by(len);
         temp
     }
@@ -266,18 +333,36 @@ impl<'a> Cursor<'a> {
             .ok_or(ReadError::OutOfBounds)?;
         let end = self.pos.checked_add(len).ok_or(ReadError::OutOfBounds)?;
         let temp = self.data.read_array(self.pos..end);
+        #[cfg(googlefonts_fontations_verif)]
+        cursor_verif::log(self.verif_id, 6, len, self.pos, temp.is_ok());
         self.advance_by(len);
         temp
     }
 
     /// return the current position, or an error if we are out of bounds
     pub(crate) fn position(&self) -> Result<usize, ReadError> {
+        #[cfg(googlefonts_fontations_verif)]
+        cursor_verif::log(
+            self.verif_id,
+            4,
+            self.pos,
+            0,
+            self.data.check_in_bounds(self.pos).is_ok(),
+        );
         self.data.check_in_bounds(self.pos).map(|_| self.pos)
     }
 
     // used when handling fields with an implicit length, which must be at the
     // end of a table.
     pub(crate) fn remaining_bytes(&self) -> usize {
+        #[cfg(googlefonts_fontations_verif)]
+        cursor_verif::log(
+            self.verif_id,
+            5,
+            self.pos,
+            self.data.len().saturating_sub(self.pos),
+            true,
+        );
         self.data.len().saturating_sub(self.pos)
     }
 
@@ -291,6 +376,14 @@ impl<'a> Cursor<'a> {
 
     pub(crate) fn finish<T>(self, shape: T) -> Result<TableRef<'a, T>, ReadError> {
         let data = self.data;
+        #[cfg(googlefonts_fontations_verif)]
+        cursor_verif::log(
+            self.verif_id,
+            3,
+            self.pos,
+            0,
+            data.check_in_bounds(self.pos).is_ok(),
+        );
         data.check_in_bounds(self.pos)?;
         Ok(TableRef { data, shape })
     }
